@@ -230,6 +230,41 @@ ChangeMetric ==
   /\ l' = l + 1
   /\ UNCHANGED <<committed, ccaps, mapfull>>
 
+\* Conformance at phase granularity (hook H2: the tree nodes and the roots after each phase of a full build).
+\* The two deterministic phases must produce exactly what Forest.tla computes; the others must satisfy
+\* the inter-phase invariants of Arroy.tla.  Failures are DRIFT (they localise a defect, they are not a verdict).
+PhaseDrift(e, pre, cap) ==
+  IF ~("phases" \in DOMAIN e) \/ Len(e.phases) # 5 THEN {}
+  ELSE
+    LET n == Cardinality(Live(pre))
+        roots0 == pre.meta.roots
+        target == TargetTrees(e.args.n_trees, pre.dim, n, Len(roots0), TRUE)
+        P(k) == [nodes |-> JNodes(e.phases[k].nodes), roots |-> e.phases[k].roots]
+        x1 == AfterDeleteExtra(pre.nodes, roots0, target)
+        x2 == AfterDeleteItems(P(1).nodes, P(1).roots, pre.updated, cap)
+        covers(ph, S) == \A k \in DOMAIN ph.roots :
+                           LET w == Walk(ph.nodes, TreeRef(ph.roots[k]), Fuel(ph.nodes))
+                           IN SeqToSet(w.items) = S /\ NoDup(w.items) /\ w.dang = {} /\ ~w.cyc
+    IN  (IF P(1).nodes # x1.nodes \/ P(1).roots # x1.roots THEN {<<"C15", "phase_delete_extra_trees">>} ELSE {})
+   \cup (IF P(2).nodes # x2.nodes \/ P(2).roots # x2.roots THEN {<<"C01", "phase_delete_items">>} ELSE {})
+   \cup (IF ~covers(P(2), Live(pre) \ pre.updated) THEN {<<"C01", "phase_delete_items_coverage">>} ELSE {})
+   \cup (IF ~covers(P(3), Live(pre)) THEN {<<"C01", "phase_insert_coverage">>} ELSE {})
+   \cup (IF Len(P(4).roots) # target \/ ~covers(P(4), Live(pre)) THEN {<<"C15", "phase_missing_trees">>} ELSE {})
+   \cup (IF P(5).nodes # JNodes(e.st.nodes) THEN {<<"C01", "phase_split_is_not_final">>} ELSE {})
+
+\* the progress callback announces the phases in the order of the pipeline of Arroy.tla
+\* (conformance: MainStep is documented as unspecified, so a different order is drift, not a violation)
+FullSteps == <<"PreProcessingTheItems", "RetrievingTheItemsIds", "RetrieveTheUpdatedItems", "RetrievingTheUsedTreeNodes",
+               "DeletingExtraTrees", "RemoveItemsFromExistingTrees", "InsertItemsInCurrentTrees",
+               "IncrementalIndexLargeDescendants", "WriteTheMetadata">>
+ShortSteps == <<"PreProcessingTheItems", "RetrievingTheItemsIds", "RetrieveTheUpdatedItems", "WritingTheDescendantsAndMetadata">>
+StepDrift(e, n, cap) ==
+  IF ~("steps" \in DOMAIN e) THEN {}
+  ELSE LET names == [k \in DOMAIN e.steps |-> e.steps[k][1]]
+           want == IF n <= cap THEN ShortSteps ELSE FullSteps
+       IN IF e.res.c = "Ok" THEN (IF names # want THEN {<<"C10", "progress_steps_of_a_successful_build">>} ELSE {})
+          ELSE IF Len(names) <= Len(want) /\ names = SubSeq(want, 1, Len(names)) THEN {} ELSE {<<"C10", "progress_steps_of_a_failed_build">>}
+
 Build ==
   /\ IsEv("Build")
   /\ LET e == Rec[l]
@@ -260,6 +295,7 @@ Build ==
              \cup (IF faulted THEN {<<"C10", "cancelled_build_returned_" \o e.res.c>>} ELSE {})
              \cup (IF e.args.threads > 1 THEN {<<"C13", "build_failed_" \o e.res.c>>} ELSE {}))
      IN /\ Report("VIOL", e, IF Faulted(e) THEN {} ELSE bad)
+        /\ Report("DRIFT", e, (IF e.res.c = "Ok" /\ n > cap THEN PhaseDrift(e, pre, cap) ELSE {}) \cup StepDrift(e, n, cap))
         /\ Bind(e, post)
         /\ caps' = [caps EXCEPT ![e.i] = caps1]
   /\ l' = l + 1
